@@ -185,6 +185,7 @@ class FunctionVerifier:
             else:
                 st.ghost[g] = mk_sym(st, ip.tenv, t, "ghost." + g)
         env = dict(args)
+        env.update({"arg_" + k: v for k, v in args.items()})
         if defining is not None:
             env.update(defining.vars)
         for k, expr in c.lets.items():
@@ -291,6 +292,11 @@ class FunctionVerifier:
                 env2 = dict(env)
                 if match.bind:
                     env2[match.bind] = raised
+                for nm, (_t, wexpr) in match.fresh.items():
+                    try:
+                        env2[nm] = ip.eval_spec_expr(wexpr, env2, old)
+                    except (PyRaise, Unsupported):
+                        env2[nm] = mk_sym(st, ip.tenv, _t, st.fresh_name(nm))
                 for name, expr in match.ensures.items():
                     ip.check(f"raises-ensures:{match.exc}:{name}", ip.spec_bool(expr, env2, old), where=expr)
                 self.check_effects(ip, match.effects, env2, old, f"raises-effects:{match.exc}", c)
